@@ -289,6 +289,10 @@ def run(ctx):
     check_mpeg_vbr(ctx)
     check_flac(ctx)
     check_more(ctx)
+    # stream-info parsers modelled in Lean (Model/Info, Spec/Info, Props/C05_<Fmt>.lean): model vs real class, spec builder
+    # vs the independent Python builders
+    import info_tie_a
+    info_tie_a.run(ctx)
 
 
 def search(ctx):
